@@ -81,6 +81,12 @@ theorem keyEq_rekey (s : State) (k i : Nat) (p : Rat) :
     KeyEq s (s.setLock k { s.locks k with waiters := rekey (s.locks k).waiters i p }) := by
   constructor <;> intros <;> simp [State.wl] <;> split <;> simp_all
 
+theorem keyEq_clearRkeys (s : State) (js : List Nat) : KeyEq s (s.clearRkeys js) := by
+  unfold State.clearRkeys
+  induction js generalizing s with
+  | nil => exact KeyEq.refl s
+  | cons j js ih => exact (keyEq_setRkey s j none).trans (ih _)
+
 mutual
 theorem propT_keyEq (s : State) : ∀ (f o : Nat), KeyEq s (propT s f o)
   | 0, _ => by simp [propT]; exact KeyEq.refl s
